@@ -518,6 +518,19 @@ pub fn gen_mut(seed: u64, id: usize) -> CaseOut {
                 (ctor("MSetValue", vec![sv(p), some(sv("L"))]), task.set_priority("L".into(), &mut ops), "set_priority(L)".into())
             }
         };
+        // direct oracle: right after a status is set, closing statuses have an end time and
+        // open ones have none
+        if res.is_ok() && (desc.starts_with("set_status(") || desc == "done") {
+            let has_end = task.get_value("end").is_some();
+            let closing = desc == "done" || desc.contains("Completed") || desc.contains("Deleted");
+            let opening = desc.contains("Pending") || desc.contains("Recurring");
+            if closing && !has_end {
+                problems.push(format!("after {desc} the task has no end time"));
+            }
+            if opening && has_end {
+                problems.push(format!("after {desc} the task still has an end time"));
+            }
+        }
         script.push(json!(desc));
         steps.push(pair(lit, b(res.is_ok())));
     }
